@@ -296,6 +296,53 @@ theorem C16_with_own_fields_identity (cal : CalId) (hne : cal ≠ .iso8601) (iso
   unfold plainDateFromPartialCal at h
   simpa [byCode, CalPartial.isEmpty] using h
 
+/-- … and when given back its own era and era year, or its own year, or its own month code: for EVERY date in range
+    (the era route has no exception). -/
+theorem C16_with_own_era_identity (cal : CalId) (hne : cal ≠ .iso8601) (iso : IsoDate) (hr : InRange iso)
+    (f : CalFields) (hf : fields cal iso = some f) (ov : Option Overflow) :
+    plainDateWithCal cal f ⟨f.era, f.eraYear, none, none, none, none⟩ ov = .ok iso := by
+  have h := C16_rebuild_from_era cal hne iso hr f hf ov
+  obtain ⟨he, hy⟩ := fields_has_era cal hne iso f hf
+  have hm : mergeFieldsCal f ⟨f.era, f.eraYear, none, none, none, none⟩ = byEra f := by
+    unfold mergeFieldsCal byEra
+    simp [he]
+  have hne' : (⟨f.era, f.eraYear, none, none, none, none⟩ : CalPartial).isEmpty = false := by
+    cases hfe : f.era with
+    | none => simp [hfe] at he
+    | some e => simp [CalPartial.isEmpty]
+  unfold plainDateWithCal
+  rw [hne', hm]
+  unfold plainDateFromPartialCal at h
+  simpa [byEra, he, hy] using h
+
+theorem C16_with_own_year_or_code_identity (cal : CalId) (hne : cal ≠ .iso8601) (iso : IsoDate) (hr : InRange iso)
+    (hj : cal = .japanese → 1 ≤ iso.year) (f : CalFields) (hf : fields cal iso = some f) (ov : Option Overflow) :
+    plainDateWithCal cal f ⟨none, none, some f.year, none, none, none⟩ ov = .ok iso ∧
+    plainDateWithCal cal f ⟨none, none, none, none, some f.monthCode, none⟩ ov = .ok iso := by
+  have h := C16_rebuild_from_year_code cal hne iso hr hj f hf ov
+  obtain ⟨hv, _⟩ := fields_code_shape cal iso hr f hf
+  unfold plainDateFromPartialCal at h
+  have hbase : dateFromPartialCal cal (byCode f) (ov.getD .constrain) = .ok iso := by
+    simpa [byCode] using h
+  constructor
+  · unfold plainDateWithCal
+    have : mergeFieldsCal f ⟨none, none, some f.year, none, none, none⟩ = byCode f := rfl
+    rw [this]
+    simpa [CalPartial.isEmpty] using hbase
+  · unfold plainDateWithCal
+    -- the merged record also carries the month number of the code, which agrees with it
+    have hmerge : mergeFieldsCal f ⟨none, none, none, none, some f.monthCode, none⟩ =
+        ⟨none, none, some f.year, some (f.monthCode.num : Int), some f.monthCode, some f.day⟩ := rfl
+    rw [hmerge]
+    have hres : resolveFields cal ⟨none, none, some f.year, some (f.monthCode.num : Int), some f.monthCode, some f.day⟩ =
+        resolveFields cal (byCode f) := by
+      unfold resolveFields resolveCode resolveEraYear byCode
+      simp [hv]
+    have : dateFromPartialCal cal ⟨none, none, some f.year, some (f.monthCode.num : Int), some f.monthCode, some f.day⟩
+        (ov.getD .constrain) = dateFromPartialCal cal (byCode f) (ov.getD .constrain) := by
+      unfold dateFromPartialCal; rw [hres]
+    simpa [CalPartial.isEmpty, this] using hbase
+
 /-- A year-month built by `yearMonthNew` from a valid ISO date under constrain is that date (or a RangeError). -/
 theorem yearMonthNew_valid (y m d : Int) (hv : Greg.Valid y m d) (r : IsoDate)
     (h : yearMonthNew y m (some d) .constrain = .ok r) : r = ⟨y, m, d⟩ := by
@@ -533,3 +580,5 @@ end TemporalModel
 #print axioms TemporalModel.Cal.C16_identifier_roundtrip
 #print axioms TemporalModel.Cal.C16_with_own_fields_identity
 #print axioms TemporalModel.Cal.C16_year_month_first_of_month
+#print axioms TemporalModel.Cal.C16_with_own_era_identity
+#print axioms TemporalModel.Cal.C16_with_own_year_or_code_identity
